@@ -120,6 +120,18 @@ Theorem C17_extract5_nonmap_delegates (st : est S) ps lw plw lik Tm : is_map (me
   extract5 S lin circ st ps lw plw lik Tm = extract2 S lin circ st ps lw.
 Proof. exact (extract5_nonmap S lin circ st ps lw plw lik Tm). Qed.
 
+(* setMobileAverageWindowSize: refused (false, nothing changes) for w <= 0, otherwise the window becomes the request
+   clamped to [2,30], the most recent estimates are kept, method and caches are untouched *)
+Theorem C17_set_window_spec (ops : list (op S)) (w : Z) :
+  let st := run init ops in
+  let r := set_window S w st in
+  if (0 <? w)%Z then
+    snd r = true /\ window (hb (fst r)) = clamp_window w /\
+    buf (hb (fst r)) = firstn (clamp_window w) (buf (hb st)) /\
+    meth (fst r) = meth st /\ smw (fst r) = smw st /\ wmw (fst r) = wmw st /\ emw (fst r) = emw st
+  else r = (st, false).
+Proof. exact (set_window_spec S lin circ ops w). Qed.
+
 (* the stored estimates are the most recent pushed base estimates (ghost trace since the last clear) *)
 Theorem C17_history_is_recent_calls (ops : list (op S)) :
   let r := trace S lin circ init ops [] in
@@ -277,6 +289,31 @@ Theorem C17_windowed_is_convex_combination (lin circ : nat) (ops : list (op ROps
                        else atan2 (rdot (map sin (prow ROps k H)) W) (rdot (map cos (prow ROps k H)) W)).
 Proof. exact (windowed_convex lin circ v s _ ps lw plw lik Tm (reachable_inv ROps lin circ ops)). Qed.
 
+(* end to end: an extract call with a windowed method on a state reached by ANY operation sequence *)
+Theorem C17_windowed_extract_end_to_end (lin circ : nat) (ops : list (op ROps)) (o : op ROps) v e :
+  let st := run ROps lin circ (est_init ROps) ops in
+  match o with OExtract2 _ _ | OExtract5 _ _ _ _ _ => True | _ => False end ->
+  meth_win (meth st) = Some v -> pushed ROps lin circ st o = Some e ->
+  let r := step ROps lin circ st o in
+  let H := buf (hb (fst r)) in
+  let n := length H in
+  let W := map exp (win_weights ROps v n) in
+  fst (snd r) = true /\
+  H = firstn (window (hb st)) (e :: buf (hb st)) /\
+  n = Nat.min (Datatypes.S (length (buf (hb st)))) (window (hb st)) /\ (1 <= n)%nat /\
+  weights_ok n W /\
+  (v = Wsimple -> forall i, (i < n)%nat -> nth i W 0 = / INR n) /\
+  (forall k, (k < lin)%nat -> nth k (snd (snd r)) 0 = rdot (prow ROps k H) W) /\
+  (forall k, (lin <= k < lin + circ)%nat ->
+     nth k (snd (snd r)) 0 = if Nat.eqb n 1 then nth k (nth 0 H []) 0
+                             else atan2 (rdot (map sin (prow ROps k H)) W) (rdot (map cos (prow ROps k H)) W)).
+Proof. exact (extract_windowed_rows lin circ ops o v e). Qed.
+
+(* the weighted variant in closed form: 2(n-i)/(n(n+1)) *)
+Theorem C17_weighted_closed_form (n i : nat) : (1 <= n)%nat -> (i < n)%nat ->
+  nth i (map exp (win_weights ROps Wweighted n)) 0 = 2 * INR (n - i) / (INR n * (INR n + 1)).
+Proof. exact (wm_closed_form n i). Qed.
+
 (* a convex combination stays between the extremes of what it combines *)
 Theorem C17_convex_combination_in_hull n w xs lo hi : weights_ok n w -> length xs = n ->
   Forall (fun x => lo <= x <= hi) xs -> lo <= rdot xs w <= hi.
@@ -300,6 +337,7 @@ Print Assumptions C17_step_history.
 Print Assumptions C17_extract_value.
 Print Assumptions C17_map_without_args_unavailable.
 Print Assumptions C17_extract5_nonmap_delegates.
+Print Assumptions C17_set_window_spec.
 Print Assumptions C17_history_is_recent_calls.
 Print Assumptions C17_stored_count.
 Print Assumptions C17_stored_fixed_window.
@@ -315,4 +353,6 @@ Print Assumptions C17_map_score_meaning.
 Print Assumptions C17_window_weights.
 Print Assumptions C17_window_weights_closed_form.
 Print Assumptions C17_windowed_is_convex_combination.
+Print Assumptions C17_windowed_extract_end_to_end.
+Print Assumptions C17_weighted_closed_form.
 Print Assumptions C17_convex_combination_in_hull.
